@@ -1,1 +1,2 @@
 pub mod smoke;
+pub mod server;
